@@ -33,6 +33,7 @@ const (
 	SendOK FaultAction = iota
 	SendFail
 	SendStall // never returns
+	SendHold  // blocks until Net.ReleaseHeld is called, then proceeds normally
 )
 
 type Net struct {
@@ -48,10 +49,21 @@ type Net struct {
 	sends  map[[2]peer.ID]int
 	conns  map[[2]peer.ID]int
 	never  chan struct{}
+	hold   chan struct{}
+	Held   int // sends currently blocked by SendHold
+}
+
+// ReleaseHeld lets every send blocked by SendHold proceed (and later ones pass).
+func (n *Net) ReleaseHeld() {
+	select {
+	case <-n.hold:
+	default:
+		vsched.Close(n.hold)
+	}
 }
 
 func NewNet() *Net {
-	return &Net{Nodes: map[peer.ID]*NetNode{}, sends: map[[2]peer.ID]int{}, conns: map[[2]peer.ID]int{}, never: make(chan struct{})}
+	return &Net{Nodes: map[peer.ID]*NetNode{}, sends: map[[2]peer.ID]int{}, conns: map[[2]peer.ID]int{}, never: make(chan struct{}), hold: make(chan struct{})}
 }
 
 type ProtectEvent struct {
@@ -161,6 +173,10 @@ func (s *sender) SendMsg(ctx context.Context, m gsmsg.GraphSyncMessage) error {
 		w.Dropped = true
 		net.Wire = append(net.Wire, w)
 		return errors.New("injected send failure")
+	case SendHold:
+		net.Held++
+		vsched.Recv(net.hold)
+		net.Held--
 	case SendStall:
 		w.Dropped = true
 		net.Wire = append(net.Wire, w)
